@@ -156,10 +156,45 @@ package route
 //@   modifies sent(buf)
 //@   ensures[never_dropped] sent(buf) == old(sent(buf)) ++ elemOf(in)
 //@
-//@ // a function-typed field: every function stored there has this frame
+//@ // function-typed fields: the body of every function the repository stores there (dispatchBlocking / dispatchNonBlocking)
+//@ // is verified against this contract; calls through the field use it
 //@ func (route *GrafanaNet) dispatch(buf chan []byte, in []byte, gauge metrics.Gauge, drops metrics.Counter)
+//@   property C17
 //@   requires buf != nil && !closed(buf) && drops != nil
 //@   modifies sent(buf), drops.count
+//@   ensures[buffered_or_counted; C17] (sent(buf) == old(sent(buf)) ++ elemOf(in) && drops.count == old(drops.count)) || (sent(buf) == old(sent(buf)) && drops.count == old(drops.count) + 1)
+//@ func (r *KafkaMdm) dispatch(buf chan []byte, in []byte, gauge metrics.Gauge, drops metrics.Counter)
+//@   property C01
+//@   requires buf != nil && !closed(buf) && drops != nil
+//@   modifies sent(buf), drops.count
+//@   ensures[buffered_or_counted; C01] (sent(buf) == old(sent(buf)) ++ elemOf(in) && drops.count == old(drops.count)) || (sent(buf) == old(sent(buf)) && drops.count == old(drops.count) + 1)
+//@ func (r *PubSub) dispatch(buf chan []byte, in []byte, gauge metrics.Gauge, drops metrics.Counter)
+//@   property C01
+//@   requires buf != nil && !closed(buf) && drops != nil
+//@   modifies sent(buf), drops.count
+//@   ensures[buffered_or_counted; C01] (sent(buf) == old(sent(buf)) ++ elemOf(in) && drops.count == old(drops.count)) || (sent(buf) == old(sent(buf)) && drops.count == old(drops.count) + 1)
+//@ func (r *CloudWatch) dispatch(buf chan []byte, in []byte, gauge metrics.Gauge, drops metrics.Counter)
+//@   property C01
+//@   requires buf != nil && !closed(buf) && drops != nil
+//@   modifies sent(buf), drops.count
+//@   ensures[buffered_or_counted; C01] (sent(buf) == old(sent(buf)) ++ elemOf(in) && drops.count == old(drops.count)) || (sent(buf) == old(sent(buf)) && drops.count == old(drops.count) + 1)
+//@ // the Kafka, Pub/Sub and CloudWatch routes: a line handed to the route is put into the route's buffer, exactly once,
+//@ // or counted as dropped because the buffer is full; nothing else happens to it here
+//@ func (r *KafkaMdm) Dispatch(buf []byte)
+//@   property C01,C14
+//@   requires r.buf != nil && !closed(r.buf) && r.numDropBuffFull != nil
+//@   modifies sent(r.buf), r.numDropBuffFull.count
+//@   ensures[buffered_once_or_counted; C01] (sent(r.buf) == old(sent(r.buf)) ++ elemOf(buf) && r.numDropBuffFull.count == old(r.numDropBuffFull.count)) || (sent(r.buf) == old(sent(r.buf)) && r.numDropBuffFull.count == old(r.numDropBuffFull.count) + 1)
+//@ func (r *PubSub) Dispatch(buf []byte)
+//@   property C01,C14
+//@   requires r.buf != nil && !closed(r.buf) && r.numDropBuffFull != nil
+//@   modifies sent(r.buf), r.numDropBuffFull.count
+//@   ensures[buffered_once_or_counted; C01] (sent(r.buf) == old(sent(r.buf)) ++ elemOf(buf) && r.numDropBuffFull.count == old(r.numDropBuffFull.count)) || (sent(r.buf) == old(sent(r.buf)) && r.numDropBuffFull.count == old(r.numDropBuffFull.count) + 1)
+//@ func (r *CloudWatch) Dispatch(buf []byte)
+//@   property C01,C14
+//@   requires r.buf != nil && !closed(r.buf) && r.numDropBuffFull != nil
+//@   modifies sent(r.buf), r.numDropBuffFull.count
+//@   ensures[buffered_once_or_counted; C01] (sent(r.buf) == old(sent(r.buf)) ++ elemOf(buf) && r.numDropBuffFull.count == old(r.numDropBuffFull.count)) || (sent(r.buf) == old(sent(r.buf)) && r.numDropBuffFull.count == old(r.numDropBuffFull.count) + 1)
 //@
 //@ func (route *GrafanaNet) Dispatch(buf []byte)
 //@   property C14,C17
@@ -209,25 +244,29 @@ package route
 //@   property C17
 //@   nosafety "the log message about rejected points indexes the batch with ids taken from the endpoint's response"
 //@   requires route.client != nil
-//@   modifies route.client.lastStatus, route.client.lastFailed, route.client.posts
+//@   modifies route.client.lastStatus, route.client.lastFailed, route.client.posts, route.client.bodies, allof("ghost:io.Writer.stream"), allof("ghost:io.Reader.unread")
 //@   ensures[one_post; C17] route.client.posts == old(route.client.posts) ++ argsOf(req) && route.client == old(route.client)
+//@   ensures[post_carries_the_request_body; C17] route.client.bodies == old(route.client.bodies) ++ elemOf(old(pendingBody(req)))
 //@   ensures[nil_iff_acknowledged; C17] (err == nil) == acked(route)
 //@   loop 1:
-//@     invariant[kept] route.client == old(route.client) && route.client.posts == old(route.client.posts) ++ argsOf(req) && !route.client.lastFailed && resp != nil && resp.StatusCode == route.client.lastStatus
+//@     invariant[kept] route.client == old(route.client) && route.client.bodies == old(route.client.bodies) ++ elemOf(old(pendingBody(req))) && route.client.posts == old(route.client.posts) ++ argsOf(req) && !route.client.lastFailed && resp != nil && resp.StatusCode == route.client.lastStatus
 //@   loop 2:
-//@     invariant[kept2] route.client == old(route.client) && route.client.posts == old(route.client.posts) ++ argsOf(req) && !route.client.lastFailed && resp != nil && resp.StatusCode == route.client.lastStatus
+//@     invariant[kept2] route.client == old(route.client) && route.client.bodies == old(route.client.bodies) ++ elemOf(old(pendingBody(req))) && route.client.posts == old(route.client.posts) ++ argsOf(req) && !route.client.lastFailed && resp != nil && resp.StatusCode == route.client.lastStatus
 //@
 //@ // retryFlush: a non-empty batch is posted again and again until it is acknowledged; it is never given up on
 //@ func (route *GrafanaNet) retryFlush(metrics []*schema.MetricData, buffer *bytes.Buffer) (r []*schema.MetricData)
 //@   property C17
 //@   nosafety "panics only if msgp encoding of the batch or http.NewRequest with a constant method fails (library contracts)"
 //@   requires gnWf(route) && buffer != nil
-//@   modifies route.client.lastStatus, route.client.lastFailed, route.client.posts, allof("ghost:metrics.Counter.count"), allof("ghost:io.Writer.stream")
+//@   modifies route.client.lastStatus, route.client.lastFailed, route.client.posts, route.client.bodies, allof("ghost:metrics.Counter.count"), allof("ghost:io.Writer.stream"), allof("ghost:io.Reader.unread")
+//@   ensures[every_attempt_carries_the_whole_batch; C17] len(metrics) > 0 ==> (exists b bytes :: blen(b) > 0 && (forall p int :: llen(old(route.client.bodies)) <= p && p < llen(route.client.bodies) ==> lget(route.client.bodies, p) == elemOf(b)))
 //@   ensures[empty_batch_no_post; C17] len(metrics) == 0 ==> r == metrics && route.client.posts == old(route.client.posts) && route.client.lastStatus == old(route.client.lastStatus) && route.client.lastFailed == old(route.client.lastFailed)
 //@   ensures[retried_until_acknowledged; C17] len(metrics) > 0 ==> acked(route) && llen(route.client.posts) > llen(old(route.client.posts))
 //@   ensures[batch_reset] len(r) == 0 && gnWf(route) && route.wg.n == old(route.wg.n)
 //@   loop 1:
 //@     invariant[wf] gnWf(route) && route.wg.n == old(route.wg.n) && route.client == old(route.client) && len(metrics) > 0 && llen(route.client.posts) >= llen(old(route.client.posts))
+//@     invariant[request_carries_the_batch; C17] req != nil && pendingBody(req) == body[..] && blen(body[..]) > 0
+//@     invariant[attempts_so_far_carried_the_batch; C17] llen(route.client.bodies) >= llen(old(route.client.bodies)) && (forall p int :: llen(old(route.client.bodies)) <= p && p < llen(route.client.bodies) ==> lget(route.client.bodies, p) == elemOf(body[..]))
 //@
 //@ // run: one worker per shard. It returns only on shutdown, after taking everything still buffered for its shard,
 //@ // flushing it, and reporting completion to the WaitGroup Shutdown waits on.
@@ -380,14 +419,20 @@ package route
 //@   ensures[appended; C18] len(routeDests(route)) == n + 1 && routeDests(route)[n] == dest && (forall j int :: 0 <= j && j < n ==> routeDests(route)[j] == old(d0[j]))
 //@   ensures[snapshot_immutable; C18] len(d0) == n && (forall j int :: 0 <= j && j < n ==> d0[j] == old(d0[j]))
 
+//@ // the two plain carbon route constructors: the route that is returned carries exactly the key, filter and destination
+//@ // list it was given (the list itself, in the configured order), and every destination of the list is started
 //@ func NewSendAllMatch(key string, matcher matcher.Matcher, destinations []*dest.Destination) (r Route, err error)
-//@   trusted
+//@   property C20,C14
 //@   fresh
-//@   ensures err == nil ==> r != nil
+//@   requires forall j int :: 0 <= j && j < len(destinations) ==> destinations[j] != nil
+//@   ensures[route_as_configured; C20] err == nil && r != nil && typeIs(r, *SendAllMatch) && as(r, *SendAllMatch).key == key && isConfType(baseConf(routeBase(r)))
+//@        && confDests(baseConf(routeBase(r))) == destinations && confMatcher(baseConf(routeBase(r))) == matcher
 //@ func NewSendFirstMatch(key string, matcher matcher.Matcher, destinations []*dest.Destination) (r Route, err error)
-//@   trusted
+//@   property C20,C14
 //@   fresh
-//@   ensures err == nil ==> r != nil
+//@   requires forall j int :: 0 <= j && j < len(destinations) ==> destinations[j] != nil
+//@   ensures[route_as_configured; C20] err == nil && r != nil && typeIs(r, *SendFirstMatch) && as(r, *SendFirstMatch).key == key && isConfType(baseConf(routeBase(r)))
+//@        && confDests(baseConf(routeBase(r))) == destinations && confMatcher(baseConf(routeBase(r))) == matcher
 //@ spec sameGnCfg(a GrafanaNetConfig, b GrafanaNetConfig) bool := a.Addr == b.Addr && a.ApiKey == b.ApiKey && a.SchemasFile == b.SchemasFile && a.AggregationFile == b.AggregationFile && a.BufSize == b.BufSize
 //@      && a.FlushMaxNum == b.FlushMaxNum && a.FlushMaxWait == b.FlushMaxWait && a.Timeout == b.Timeout && a.Concurrency == b.Concurrency && a.OrgID == b.OrgID && a.SSLVerify == b.SSLVerify
 //@      && a.Blocking == b.Blocking && a.Spool == b.Spool && a.ErrBackoffMin == b.ErrBackoffMin && a.ErrBackoffFactor == b.ErrBackoffFactor
